@@ -548,12 +548,12 @@ def gen_path_cases(rng, tier):
     allw = [w for n in range(bound + 1) for w in words(n)]
     for w in allw:                                    # normpath, exhaustive
         out.append((w, [], w, posixpath.normpath(w)))
-    short = [w for w in allw if len(w) <= 3]
+    short = [w for w in allw if len(w) <= (3 if tier == "thorough" else 2)]
     for a in short:                                   # join of two, exhaustive
         for b in short:
             j = posixpath.join(a, b)
             out.append((a, [b], j, posixpath.normpath(j)))
-    n = 4000 if tier == "thorough" else 600
+    n = 4000 if tier == "thorough" else 400
     for _ in range(n):
         a = _word(rng, "//..ab é", 0, 8)
         bs = [_word(rng, "//..ab é", 0, 6) for _ in range(rng.randint(0, 3))]
